@@ -7,7 +7,7 @@ Import ListNotations.
 From SV Require Import Common.Int32 C02.Kernels C02deep.Syntax C02deep.Sem C02deep.Passes C02deep.ProofsScope
   C02loop.Analysis C02loop.Licm C02loop.Algebraic C02loop.StrengthIv C02loop.Driver C02loop.Classes
   C02loop.ProofsBase C02loop.ProofsLicm C02loop.ProofsAnalysis C02loop.ProofsExpand C02loop.ProofsAlgebraic
-  C02loop.ProofsWitness.
+  C02loop.ProofsExtract C02loop.ProofsExtract2 C02loop.ProofsXstep C02loop.ProofsIve C02loop.ProofsSr C02loop.ProofsDriver C02loop.ProofsWitness.
 Open Scope Z_scope.
 
 (* ================================================================== (2) loop-invariant code motion *)
@@ -42,6 +42,21 @@ Theorem C02loop_licm_repaired_on_old_witness :
     sem Wrap ww f' [1; 2] 10 = Done 3 [(1%N, [5]); (0%N, [2]); (1%N, [5]); (0%N, [1])] /\
     sem Wrap ww f_licm_div [1; 2] 10 = Done 3 [(1%N, [5]); (0%N, [2]); (1%N, [5]); (0%N, [1])].
 Proof. exact licm_repaired_on_old_witness. Qed.
+
+(* the driver itself (optimize_while_statement_with_all_loop_optimizations) on a loop that the induction analysis
+   does not accept: it returns the hoisted statements and the loop with the remaining body, allocates no temporary,
+   and that is exactly the original loop (end to end for this path of Driver.loop_while) *)
+Theorem C02loop_loop_while_rejected_preserves : forall w fuel S lvs ss bc sup out sup' fl en tr,
+  loop_while lvs ss bc sup = Some (out, sup', fl) -> f_extract fl = 0%N ->
+  scoped S (SWhile lvs ss bc) = true ->
+  NoDup (binders (SWhile lvs ss bc)) ->
+  (forall x, In x (binders (SWhile lvs ss bc)) -> ~ In x S) ->
+  sup' = sup /\
+  match exec Wrap w fuel (SWhile lvs ss bc) en tr with
+  | RNext e1 t => exists e1', exec_block Wrap w fuel out en tr = RNext e1' t /\ agree w (opt_names bc ++ S) e1 e1'
+  | o => exec_block Wrap w fuel out en tr = o
+  end.
+Proof. exact loop_while_rejected. Qed.
 
 (* ================================================================== (1) the induction analysis is sound *)
 (* the shape extract_loop_guard_structure accepts *)
@@ -84,13 +99,14 @@ Proof. exact extract_basic_loop_sound. Qed.
 (* every recognised derived induction variable d = (base, multiplier, immediate): base is a basic induction
    variable, and at the end of EVERY iteration that runs to its end (in every checking mode), d holds
    multiplier * base + immediate modulo 2^32, with base, multiplier and immediate read at the head of the iteration.
-   Hypotheses: the top-level binders of the body are pairwise distinct, none of them is a basic induction
-   variable, and every name outside the non-invariant set is not bound in the body (true of the set computed by
-   loop-invariant code motion on well-scoped single-assignment code). *)
+   Hypotheses: the binders of the body are pairwise distinct, none of them is a basic induction variable, and an
+   operand of a top-level binary statement that is outside the non-invariant set is not bound in the body
+   (ops_stable: true of the set computed by loop-invariant code motion on well-scoped single-assignment code:
+   such an operand comes from the scope in front of the loop). *)
 Theorem C02loop_derived_sound : forall m w fuel ninv bs rest e0 tr e1 t,
   NoDup (binders_l rest) ->
   (forall b, In b bs -> ~ In (gc_name b) (binders_l rest)) ->
-  (forall v, ~ In v ninv -> ~ In v (binders_l rest)) ->
+  ops_stable ninv (binders_l rest) rest ->
   exec_block m w fuel rest e0 tr = RNext e1 t ->
   forall d, In d (extract_derived bs rest ninv) ->
     In (dn_base d) (map gc_name bs) /\
@@ -117,6 +133,36 @@ Theorem C02loop_expand_shape : forall o sup,
     fst (expand o sup) = xloop o coll cc (combine (kept_generals o) ns) ts /\
     length ns = length (kept_generals o) /\ length ts = length (o_derived o).
 Proof. exact expand_xloop. Qed.
+
+(* ================================================================== extraction and re-expansion preserve the loop *)
+(* For every loop that extract_optimizable_while_loop accepts (code after fix 8c133db): the loop that
+   expand_optimizable_while_loop builds from the analysis result - new guard comparison under a fresh name, the
+   body after the dead code elimination inside the loop, the useless loop variables dropped, the collectors of the
+   basic induction variables and the derived induction variables recomputed at the end of the body - behaves like
+   the original loop on the target semantics: same normal end in an environment that agrees on everything in
+   scope afterwards, same trap, same abort, same call trace, same use of fuel.
+   Hypotheses: single assignment and scoping as for loop-invariant code motion; the non-invariant set covers the
+   loop variables and the top-level names of the body (true of the set computed by loop-invariant code motion);
+   the temporaries are new; and the loop is outside the two MIR-level classes in which the statement is false:
+   plain_break (K_nested_break: the statement under the guard's `if` is a Break) and bases_kept (K_base_dropped:
+   every derived induction variable is recomputed from an induction variable that the new loop keeps). *)
+Theorem C02loop_extract_expand_preserves : forall w fuel S lvs ss bc ninv o coll cc ns ts en tr,
+  extract lvs ss bc ninv = XOk o ->
+  scoped S (SWhile lvs ss bc) = true ->
+  NoDup (binders (SWhile lvs ss bc)) ->
+  (forall x, In x (binders (SWhile lvs ss bc)) -> ~ In x S) ->
+  (forall x, In x (map t_name lvs ++ defs_l ss) -> In x ninv) ->
+  plain_break ss -> bases_kept o ->
+  NoDup (coll :: cc :: ns ++ ts) ->
+  (forall y, In y (coll :: cc :: ns ++ ts) -> ~ In y S /\ ~ In y (binders (SWhile lvs ss bc))) ->
+  length ns = length (kept_generals o) -> length ts = length (o_derived o) ->
+  match exec Wrap w fuel (SWhile lvs ss bc) en tr with
+  | RNext e1 t => exists e1', exec Wrap w fuel (xloop o coll cc (combine (kept_generals o) ns) ts) en tr = RNext e1' t /\
+                              agree w (opt_names bc ++ S) e1 e1'
+  | RBreak _ _ _ | RStuck | ROvf => True
+  | r => exec Wrap w fuel (xloop o coll cc (combine (kept_generals o) ns) ts) en tr = r
+  end.
+Proof. exact extract_expand_sound. Qed.
 
 (* ================================================================== (3) the closed form of counting loops *)
 (* If loop_algebraic_optimization replaces the loop by `stmts`, then every run of the loop (target semantics) that
@@ -146,9 +192,95 @@ Theorem C02loop_alg_exit_condition_needed :
     (exists e2, exec_block Wrap ww 40 stmts [] [] = RNext e2 [] /\ lookup 9%N e2 = 1).
 Proof. exact alg_exit_condition_needed. Qed.
 
-(* ================================================================== (4) induction-variable elimination: refuted *)
-(* open finding C02-iv-elimination-guard: the rewritten guard is always `<` on wrapped products.  Each of the
-   conditions of the class is needed (the first two are the class as first registered): *)
+
+(* ================================================================== (4) strength reduction *)
+(* what loop_strength_reduction::optimize returns: for every derived induction variable d = m * b + c whose step
+   inc_b * m merges to one invariant operand: two prefix statements (t1 = m * init_b, t2 = c + t1) and a new general
+   induction variable (d, t2, inc_b * m); the others stay derived *)
+Theorem C02loop_sr_shape : forall o sup pre o2 sup',
+  sr o sup = Some (pre, o2, sup') ->
+  exists ss rem, sr_rel (sr_bmap o) (o_derived o) ss rem /\ pre = flat_map sd_pre ss /\
+    o2 = mkowl (o_basic o) (o_general o ++ map sd_giv ss) (o_others o) rem (o_stmts o) (o_bc o).
+Proof. exact sr_inv. Qed.
+
+(* The prefix statements followed by the loop built from the reduced analysis result (sr_owl: with the filter of
+   the driver) behave like the loop built from the original analysis result - no side condition: the reduced
+   variables are computed modulo 2^32 on both sides (ring identities).  Hypotheses as for the induction-variable
+   elimination (owl_wf, owl_reads_i: as owl_reads, the guarded induction variable may be read; fresh_for), and: no
+   reduced variable is still bound by a body statement (then the filter of the driver removes nothing).  PARTIAL:
+   when the dead code elimination inside the loop kept the defining statement of a reduced variable because another
+   statement reads it, the driver deletes that statement and the readers read the new loop variable instead; that
+   case needs the link "the deleted statement computed m * b + c" (C02loop_derived_sound for the body BEFORE the
+   dead code elimination) and is covered by the tie and the sanity runs only. *)
+Theorem C02loop_sr_preserves_partial : forall w fuel T0 o ss rem collA ccA nsA tsA collB ccB nsB tsB en tr,
+  let PT := flat_map (fun s => [sd_t1 s; sd_t2 s]) ss in
+  let oB := sr_owl o ss rem in
+  sr_rel (sr_bmap o) (o_derived o) ss rem ->
+  owl_wf T0 o -> owl_reads_i T0 o ->
+  (forall s, In s ss -> ~ In (dn_name (sd_d s)) (binders_l (o_stmts o))) ->
+  fresh_for T0 o (collA :: ccA :: nsA ++ tsA) ->
+  fresh_for (PT ++ T0) o (collB :: ccB :: nsB ++ tsB) ->
+  fresh_for T0 o PT ->
+  length nsA = length (kept_generals o) /\ length tsA = length (o_derived o) ->
+  length nsB = length (kept_generals oB) /\ length tsB = length (o_derived oB) ->
+  match exec Wrap w fuel (xloop o collA ccA (combine (kept_generals o) nsA) tsA) en tr with
+  | RNext e1 t => exists e1',
+      exec_block Wrap w fuel (flat_map sd_pre ss ++ [xloop oB collB ccB (combine (kept_generals oB) nsB) tsB]) en tr = RNext e1' t /\
+      agree w (opt_names (bc_of o) ++ T0) e1 e1'
+  | RBreak _ _ _ | RStuck | ROvf => True
+  | r => exec_block Wrap w fuel (flat_map sd_pre ss ++ [xloop oB collB ccB (combine (kept_generals oB) nsB) tsB]) en tr = r
+  end.
+Proof. exact sr_sound. Qed.
+
+(* ================================================================== (4) induction-variable elimination *)
+(* what loop_induction_variable_elimination::optimize returns: the four prefix statements and the analysis result
+   with the derived variable as the new guarded induction variable, guard always `<` *)
+Theorem C02loop_ive_shape : forall o sup pre nb nd sup',
+  ive o sup = Some (pre, nb, nd, sup') ->
+  exists only added t1 t2 t3 t4,
+    owl_uses_iv o = false /\
+    filter (fun v => N.eqb (dn_base v) (bg_name (o_basic o))) (o_derived o) = [only] /\
+    merge_mul (bg_inc (o_basic o)) (dn_mult only) = Some added /\
+    t1 = fst (alloc sup) /\ t2 = fst (alloc (snd (alloc sup))) /\
+    t3 = fst (alloc (snd (alloc (snd (alloc sup))))) /\ t4 = fst (alloc (snd (alloc (snd (alloc (snd (alloc sup))))))) /\
+    pre = ive_pre o only t1 t2 t3 t4 /\
+    mkowl nb (o_general o) (o_others o) nd (o_stmts o) (o_bc o) = ive_owl o only added t2 t4.
+Proof. exact ive_inv. Qed.
+
+(* OUTSIDE the open class C02-iv-elimination-guard the rewrite is correct: if the replaced guard is `<`, the
+   multiplier is positive, multiplier * bound + immediate is representable, and multiplier * z + immediate is
+   representable for every value z that the eliminated induction variable takes at the head of an iteration -
+   including the value with which the loop is left (ive_side; Vis is any set of values that contains the initial
+   value and is closed under the step while the guard holds) - then the prefix statements followed by the loop built
+   from the rewritten analysis result behave like the loop built from the original analysis result: same normal
+   end in an environment that agrees on the break collector and on T0, same trap, abort, call trace and fuel.
+   owl_wf / owl_reads / fresh_for: the analysis result is internally consistent (distinct names, invariant operands
+   in T0, bases are induction variables), its statements and loop values read kept loop variables, T0 and names the
+   body defines, and the temporaries are new.  The five C02loop_ive_*_refuted theorems below show that every clause
+   of ive_side is needed, each on a source-reachable loop. *)
+Theorem C02loop_ive_preserves : forall w fuel T0 o only added t1 t2 t3 t4 collA ccA nsA tsA collB ccB nsB tsB en Vis tr,
+  let oB := ive_owl o only added t2 t4 in
+  filter (fun v => N.eqb (dn_base v) (bg_name (o_basic o))) (o_derived o) = [only] ->
+  merge_mul (bg_inc (o_basic o)) (dn_mult only) = Some added ->
+  owl_wf T0 o -> owl_reads T0 o ->
+  ~ In (dn_name only) (binders_l (o_stmts o)) /\ ~ In (dn_name only) (uses_l (o_stmts o) []) ->
+  fresh_for T0 o (collA :: ccA :: nsA ++ tsA) ->
+  fresh_for ([t1; t2; t3; t4] ++ T0) o (collB :: ccB :: nsB ++ tsB) ->
+  fresh_for T0 o [t1; t2; t3; t4] ->
+  length nsA = length (kept_generals o) /\ length tsA = length (o_derived o) ->
+  length nsB = length (kept_generals oB) /\ length tsB = length (o_derived oB) ->
+  ive_side w en o only Vis ->
+  match exec Wrap w fuel (xloop o collA ccA (combine (kept_generals o) nsA) tsA) en tr with
+  | RNext e1 t => exists e1',
+      exec_block Wrap w fuel (ive_pre o only t1 t2 t3 t4 ++ [xloop oB collB ccB (combine (kept_generals oB) nsB) tsB]) en tr = RNext e1' t /\
+      agree w (opt_names (bc_of o) ++ T0) e1 e1'
+  | RBreak _ _ _ | RStuck | ROvf => True
+  | r => exec_block Wrap w fuel (ive_pre o only t1 t2 t3 t4 ++ [xloop oB collB ccB (combine (kept_generals oB) nsB) tsB]) en tr = r
+  end.
+Proof. exact ive_sound. Qed.
+
+(* INSIDE the class the rewrite is wrong: open finding C02-iv-elimination-guard, the rewritten guard is always `<` on
+   wrapped products.  Each clause of ive_side is needed (the first two are the class as first registered): *)
 Theorem C02loop_ive_guard_operator_refuted :
   exists f f' fl,
     wf_func f = true /\ loop_pass sup0 f = Some (f', fl) /\ f_ive fl = 1%N /\
@@ -181,7 +313,7 @@ Example C02loop_nonvacuous :
   exists f' fl,
     wf_func f_all = true /\ loop_pass sup0 f_all = Some (f', fl) /\
     f_licm fl = 1%N /\ f_extract fl = 1%N /\ f_sr fl = 1%N /\ f' <> f_all /\
-    classes_func f_all = [0; 0; 0; 0; 0; 0; 0]%N /\
+    classes_func f_all = [0; 0; 0; 0; 0; 0; 0; 1]%N /\
     sem All ww f_all [14] 20 = sem Wrap ww f' [14] 20 /\
     sem All ww f_all [14] 20 = Done 147 [(0%N, [10; 98]); (0%N, [5; 98]); (0%N, [0; 98])].
 Proof. exact loop_pass_nonvacuous. Qed.
@@ -195,6 +327,7 @@ Proof. exact alg_nonvacuous. Qed.
 Print Assumptions C02loop_licm_preserves.
 Print Assumptions C02loop_licm_old_refuted.
 Print Assumptions C02loop_licm_repaired_on_old_witness.
+Print Assumptions C02loop_loop_while_rejected_preserves.
 Print Assumptions C02loop_guard_shape.
 Print Assumptions C02loop_guard_sound.
 Print Assumptions C02loop_basic_sound.
@@ -202,8 +335,13 @@ Print Assumptions C02loop_derived_sound.
 Print Assumptions C02loop_guard_name_old_refuted.
 Print Assumptions C02loop_guard_name_repaired_on_old_witness.
 Print Assumptions C02loop_expand_shape.
+Print Assumptions C02loop_extract_expand_preserves.
 Print Assumptions C02loop_alg_closed_form.
 Print Assumptions C02loop_alg_exit_condition_needed.
+Print Assumptions C02loop_sr_shape.
+Print Assumptions C02loop_sr_preserves_partial.
+Print Assumptions C02loop_ive_shape.
+Print Assumptions C02loop_ive_preserves.
 Print Assumptions C02loop_ive_guard_operator_refuted.
 Print Assumptions C02loop_ive_negative_multiplier_refuted.
 Print Assumptions C02loop_ive_bound_overflow_refuted.
